@@ -422,7 +422,18 @@ fn header_tables() -> Vec<Vec<MEndpoint>> {
         ladder(),
         vec![ep("plain_get", "GET", &MRange::All), ep("plain_put", "PUT", &MRange::All), deeper],
         vec![ep("plain_get", "GET", &MRange::All), other],
+        // the ladder again, on a server whose newest supported version is a pre-release
+        ladder(),
     ]
+}
+
+/// newest supported version of the server carrying `header_tables()[i]`
+fn header_max(i: usize) -> &'static str {
+    if i == 3 {
+        "1.0.0-beta"
+    } else {
+        MAX_VERSION
+    }
 }
 
 const MAX_VERSION: &str = "2.5.0";
@@ -465,7 +476,7 @@ fn header_case_strategy() -> impl Strategy<Value = HeaderCase> {
             .prop_filter("needs a non-ascii byte", |v| v.iter().any(|b| *b >= 0x80))
             .prop_map(HeaderVal::NonAscii),
     ];
-    (prop_oneof![2 => Just(0u8), 1 => Just(1u8), 1 => Just(2u8)], val, any::<bool>()).prop_map(|(api, val, upper_name)| HeaderCase { api, val, upper_name })
+    (prop_oneof![2 => Just(0u8), 1 => Just(1u8), 1 => Just(2u8), 2 => Just(3u8)], val, any::<bool>()).prop_map(|(api, val, upper_name)| HeaderCase { api, val, upper_name })
 }
 
 struct Live {
@@ -479,7 +490,7 @@ fn check_header(lives: &[Live], rt: &tokio::runtime::Runtime, c: &HeaderCase, st
     let table = tables[which].clone();
     let live = &lives[which];
     st.count(&format!("api:{}", which));
-    let max = MVer::parse(MAX_VERSION);
+    let max = MVer::parse(header_max(c.api as usize % header_tables().len()));
     let name = if c.upper_name { "X-Verif-Version" } else { "x-verif-version" };
     let mut head = format!("GET /p HTTP/1.1\r\nhost: h\r\n").into_bytes();
     match &c.val {
@@ -554,7 +565,7 @@ fn check_header(lives: &[Live], rt: &tokio::runtime::Runtime, c: &HeaderCase, st
 }
 
 pub fn run(ctx: &mut Ctx) {
-    ctx.rule = "membership_shapes: every pair of disjoint ranges on an exact route + the wildcard route below it (request = the exact path, with and without trailing slash) or on one route, both registration orders, 9 probes each; membership/conflict: complete enumeration of all 43 ranges over a 7-version ordered pool (with pre-releases) x 9 probes and all 1849 ordered pairs, plus random semver triples; non-trivial = probe on a range bound or with a pre-release, pair sharing a bound or containing a one-version range; header cases against three APIs (a ladder of ranges partitioning the version line; only unrestricted endpoints; an unrestricted endpoint plus a restricted one elsewhere): non-trivial = pool/pre-release versions and every refusal class instance (distinct by value)".into();
+    ctx.rule = "membership_shapes: every pair of disjoint ranges on an exact route + the wildcard route below it (request = the exact path, with and without trailing slash) or on one route, both registration orders, 9 probes each; membership/conflict: complete enumeration of all 43 ranges over a 7-version ordered pool (with pre-releases) x 9 probes and all 1849 ordered pairs, plus random semver triples; non-trivial = probe on a range bound or with a pre-release, pair sharing a bound or containing a one-version range; header cases against four servers (a ladder of ranges partitioning the version line; only unrestricted endpoints; an unrestricted endpoint plus a restricted one elsewhere; the ladder with a pre-release as newest supported version): non-trivial = pool/pre-release versions and every refusal class instance (distinct by value)".into();
     ctx.assume("build metadata is never generated (precedence ignores it and the macro rejects it)");
     ctx.assume("the least semver version 0.0.0-0 is not used as an Until bound (empty range)");
 
@@ -630,12 +641,13 @@ pub fn run(ctx: &mut Ctx) {
     // live header policy
     let lives: Vec<Live> = header_tables()
         .iter()
-        .map(|t| {
+        .enumerate()
+        .map(|(ti, t)| {
             let _g = ctx.rt.enter();
             let api = build_api(t).expect("header tables must register");
             let policy = dropshot::VersionPolicy::Dynamic(Box::new(dropshot::ClientSpecifiesVersionInHeader::new(
                 http::HeaderName::from_static("x-verif-version"),
-                MVer::parse(MAX_VERSION).semver(),
+                MVer::parse(header_max(ti)).semver(),
             )));
             let server = start_server(api, DynCtx::default(), Default::default(), Some(policy)).expect("server");
             Live { addr: server.local_addr(), server }
